@@ -487,6 +487,19 @@ func genDec(t *rapid.T) decCase {
 			b = buf.Bytes()
 		}
 	}
+	if !c.JSON && len(b) > 0 && b[0] == 0x83 && rapid.IntRange(0, 7).Draw(t, "longorigpeer") == 0 {
+		// a fourth field written by hand: a text string around or beyond the 8192-byte cap the encoder enforces
+		// for OrigPeer, with all of its bytes present
+		n := rapid.SampledFrom([]int{8191, 8192, 8193, 9000, 70000}).Draw(t, "oplen")
+		b[0] = 0x84
+		hdr := []byte{0x79, byte(n >> 8), byte(n)} // major type 3, 16-bit length
+		if n > 0xffff {
+			hdr = []byte{0x7a, byte(n >> 24), byte(n >> 16), byte(n >> 8), byte(n)}
+		}
+		b = append(append(b, hdr...), bytes.Repeat([]byte{'a'}, n)...)
+		c.Data = b
+		return c
+	}
 	nm := rapid.IntRange(0, 3).Draw(t, "nmut")
 	for i := 0; i < nm && len(b) > 0; i++ {
 		pos := rapid.IntRange(0, len(b)-1).Draw(t, "pos")
